@@ -18,7 +18,13 @@ CONSTANTS Primes,    \* the prime fields, e.g. {7, 11, 13, 46337}
           VecN,      \* ChooseSeq / Lagrange vectors are emitted (and their laws checked) for n <= VecN
           FullMax,   \* every polynomial of degree < t over GF(q) whenever q <= 13 and q^t <= FullMax
           Sample,    \* seeded coefficient vectors (length >= MaxN, entries >= 0)
-          ModelQ     \* field used to decide the expected verdict of the DKG cases
+          ModelQ,    \* field used to decide the expected verdict of the DKG cases
+          BigSizes,  \* sizes of the LARGE point sets demanded of the real code (every window class of Algebra!BigClasses)
+          RandSets,  \* seeded random large point sets (ascending sequences within 1..65535)
+          BigNT,     \* large dealings <<n, t>> (trusted-dealer mode: real Gen, reconstruct, signature aggregation)
+          BigDkg,    \* large real DKGs <<n, t>> (C(n, t) must stay small: the cross-check enumerates every t-subset)
+          BigChoose, \* large <<n, k>> for chooseKoutOfN (count compared with BinomMul)
+          BigQ       \* prime > every n of BigDkg, field of the verdict model for those
 
 VARIABLE st
 
@@ -40,7 +46,12 @@ Offsets(q, t) == IF q = 7 THEN 1..(q - 1)
                  ELSE IF q <= 13 THEN 1..(q - 1)
                  ELSE {1, 2, q - 1, (Sample[1][1] % (q - 1)) + 1}
 
+Big == BigCases(BigSizes, RandSets)
+
 Init == st \in {Blank} \cup {[k |-> "case", q |-> c[1], n |-> c[2], t |-> c[3], P |-> <<>>, lam |-> LagrangeTable(c[2], c[1])] : c \in Cases}
+                       \cup {[k |-> "bigpre", q |-> ModelQ, n |-> 0, t |-> 0, P |-> b.pts, lam |-> <<>>] : b \in Big}
+                       \cup {[k |-> "bigdkg", q |-> BigQ, n |-> nt[1], t |-> nt[2], P |-> <<pos, off>>, lam |-> <<>>] :
+                                 nt \in BigDkg, pos \in 0..1, off \in 0..1}
 
 VecPts == {S \in SUBSET (1..VecN) : Cardinality(S) >= 2}
 
@@ -50,8 +61,11 @@ EmitVectors ==
   /\ \A S \in VecPts : \A i \in S :
         LET pts == SortedSeq(S) IN PrintT(<<"LAG", ToJson([pts |-> pts, i |-> i, num |-> LagNum(i, pts), den |-> LagDen(i, pts)])>>)
   /\ \A n \in 2..MaxN : \A t \in 2..n : \A pos \in 0..n : \A off \in (IF pos = 0 THEN {FALSE} ELSE BOOLEAN) :
-        PrintT(<<"DKGC", ToJson([n |-> n, t |-> t, pos |-> pos, off |-> off,
-                                  expect |-> ModelVerdict(n, t, pos, off, [i \in 1..t |-> (Sample[1][i] % (ModelQ - 1)) + 1], ModelQ)])>>)
+        PrintT(<<"DKGC", ToJson([n |-> n, t |-> t, pos |-> pos, off |-> off, big |-> FALSE,
+                                  expect |-> ModelVerdict(n, t, pos, off, VerdictPoly(Sample[1], t, ModelQ), ModelQ)])>>)
+  /\ \A b \in Big : PrintT(<<"BIGC", ToJson(b)>>)
+  /\ \A nt \in BigNT : PrintT(<<"BDEALC", ToJson([n |-> nt[1], t |-> nt[2], classes |-> DealClasses])>>)
+  /\ \A nk \in BigChoose : PrintT(<<"BCHOOSEC", ToJson([n |-> nk[1], k |-> nk[2], count |-> BinomMul(nk[1], nk[2])])>>)
 
 \* the full enumerations are split by the first PreLen coefficients so that TLC's workers share them
 PreLen == 2
@@ -63,6 +77,16 @@ Next == \/ /\ st.k = "case" /\ ~(Full(st.q, st.t) /\ st.t > PreLen)
            /\ \E rest \in [1..(st.t - PreLen) -> 0..(st.q - 1)] : st' = [st EXCEPT !.k = "poly", !.P = st.P \o rest]
         \/ /\ st.k = "vec"
            /\ EmitVectors
+           /\ st' = [st EXCEPT !.k = "vecdone"]
+        \/ \* large point sets: the laws are evaluated on the successor, i.e. by TLC's workers and not while computing Init
+           /\ st.k = "bigpre"
+           /\ st' = [st EXCEPT !.k = "big"]
+        \/ \* large DKG cases (one state each, so that the workers share the verdict computations): all parties real (pos 0),
+           \* or the harness plays the first / the last party, on (off = 0) or off (off = 1) the polynomial
+           /\ st.k = "bigdkg" /\ (st.P[1] = 0 => st.P[2] = 0)
+           /\ \A pos \in (IF st.P[1] = 0 THEN {0} ELSE {1, st.n}) :
+                 PrintT(<<"DKGC", ToJson([n |-> st.n, t |-> st.t, pos |-> pos, off |-> (st.P[2] = 1), big |-> TRUE,
+                                           expect |-> ModelVerdictT(st.n, st.t, pos, st.P[2] = 1, VerdictPoly(Sample[1], st.t, BigQ), BigQ)])>>)
            /\ st' = [st EXCEPT !.k = "vecdone"]
 
 -----------------------------------------------------------------------------
@@ -83,6 +107,32 @@ FieldLagrangeLaw == st.k = "case" =>
      /\ st.lam[S][i] = Lagrange(i, Reverse(pts), st.q)
      /\ st.lam[S][i] = ((LagNum(i, pts) % st.q) * Inv(LagDen(i, pts), st.q)) % st.q
      /\ st.lam[S][i] # 0
+
+\* moment law, all sets of the small fields: sum_{i in S} lambda_i(S) * i^k = [k = 0] for 0 <= k < |S|
+MomentLaw == st.k = "case" =>
+  \A S \in DOMAIN st.lam :
+     LET pts == SortedSeq(S) IN MomentLawQ(pts, [m \in DOMAIN pts |-> st.lam[S][pts[m]]], st.q)
+
+\* moment law, every demanded LARGE set whose points are below the model field (the other classes -- identifiers up to 65535 --
+\* exceed every field TLC can compute in and are evaluated on the real code only)
+BigMomentLaw == (st.k = "big" /\ SeqMax(st.P) < st.q) =>
+  LET inv == InvTable(st.q)
+      lam == LagSeq(st.P, st.q, inv) IN
+  /\ MomentLawQ(st.P, lam, st.q)
+  /\ \A m \in DOMAIN lam : lam[m] # 0
+BigSetsOK == st.k = "big" => PointSetOK(st.P)
+
+\* the helpers of the large cases agree with the transcriptions: inverse table, binomial coefficients, verdict model
+HelperLaws == st.k = "vec" =>
+  /\ \A q \in (Primes \ {ModelQ}) \cup {BigQ} : \A a \in 1..(q - 1) : InvTable(q)[a] = Inv(a, q) /\ (a * InvTable(q)[a]) % q = 1
+  /\ \A n \in 0..16 : \A k \in 0..n : BinomMul(n, k) = Binom(n, k)
+  /\ \A n \in 0..VecN : \A k \in 0..n : Len(ChooseSeq(n, k)) = BinomMul(n, k)
+  /\ \A nk \in BigChoose : nk[2] \in 1..(nk[1] - 1) =>
+        BinomMul(nk[1], nk[2]) = BinomMul(nk[1] - 1, nk[2] - 1) + BinomMul(nk[1] - 1, nk[2])
+  /\ \A n \in 2..4 : \A t \in 2..n : \A pos \in 0..n : \A off \in (IF pos = 0 THEN {FALSE} ELSE BOOLEAN) :
+        ModelVerdictT(n, t, pos, off, VerdictPoly(Sample[1], t, BigQ), BigQ) = ModelVerdict(n, t, pos, off, VerdictPoly(Sample[1], t, ModelQ), ModelQ)
+  /\ \A nt \in BigDkg : nt[1] < BigQ /\ nt[2] \in 2..nt[1]
+  /\ \A nt \in BigNT : nt[2] \in 2..nt[1]
 
 \* per polynomial: every set of at least t points reconstructs the secret P[1] ...
 ReconstructLaw == st.k = "poly" =>
